@@ -20,9 +20,9 @@ TECH = {
          "exception containment is decided on the complete set of token sequences up to the stated length over an adversarial alphabet; documented errors on lines with exactly one planted fault"),
  "C03": ("reference walk over the configuration tree vs the real resolver, with recording handlers for the nothing-run clause; lines that are a path plus required values must be accepted whatever the parser says; the same argv list wrapped twice",
          "selection, resolved arguments and error messages compared with an independent walk over generated trees and line shapes"),
- "C04": ("outcome matrix through Application.run with recording handlers/streams + sys.monitoring failpoint injection at every line inside the handler's extent",
+ "C04": ("outcome matrix through Application.run with recording handlers/streams + sys.monitoring failpoint injection at every line inside the handler's extent; exceptions raised inside the I/O's indentation scopes and by types that provide a solution",
          "fault enumeration: every (file, line) executed while the handler is on the stack is turned into a failpoint for three exception types; status, report and handler-count oracles"),
- "C05": ("history monitor: one parser instance vs pristine-world reference per request, deep snapshots of argv / RawArgs / format listings around every call",
+ "C05": ("history monitor: one parser instance vs pristine-world reference per request, deep snapshots of argv / RawArgs / format listings around every call; a consumer appends to every default list a result hands out",
          "all ordered pairs/triples of a stratified request catalogue plus random histories; purity means equal outcome and unchanged inputs"),
  "C06": ("history monitor against a plain-list model: builder, built format and model answer every public query; atomic rejection by before/after snapshots; constructor parity; the built format re-queried after the builder went on and returned containers were mutated",
          "bounded-exhaustive operation sequences over a colliding name pool on 6 base stacks"),
@@ -30,29 +30,29 @@ TECH = {
          "the whole flag space (2^13 x 6, 2^11 x 3) is run; names up to length 4/5 over a small alphabet"),
  "C08": ("exhaustive short strings under a sys.monitoring step budget and a process-CPU-time budget (two logical termination monitors) + quote/unquote inverse over generated token lists + string/argv equivalence through parser and resolver",
          "totality and termination on every string up to length 5/7; inverse law on generated token lists with every kind of whitespace separator"),
- "C09": ("io_factory tap + recording handlers and streams; variants of valid lines with switches inserted at every kind of position, control placements after '--' (also with a switch as the last token before it); switch sequences on one application object against fresh applications",
+ "C09": ("io_factory tap + recording handlers and streams; variants of valid lines with switches inserted at every kind of position, control placements after '--' (also with a switch as the last token before it); switch sequences on one application object against fresh applications; the verbosity predicates of I/O and both outputs follow the level",
          "per-switch clauses judged on I/O settings actually built for the run and on the bytes written"),
  "C10": ("reflection-discovered writing methods x complete truth table (verbosity x flags x quiet x formatter x object kind incl. section I/Os of every I/O kind), bytes observed at a recording stream; random histories with unique message ids over separately gated outputs and live sections (a suppressed id never appears, then or later)",
          "exhaustive table; a method added later is picked up by the probing step"),
  "C11": ("markup AST generator with per-character SGR interpreter; exhaustive colour/attribute table through three supply routes; reflection over *_line methods; nested indentation scopes (set and increment, also on one output serving both streams) with exceptional exits",
          "four boundary monitors at formatter/stream level"),
- "C12": ("history monitor against a list model; listeners are logging closures (plain, stopping, registering, raising, bound methods of unreferenced objects); prefix-closed exhaustive enumeration incl. cache-filling queries",
+ "C12": ("history monitor against a list model; listeners are logging closures (plain, stopping, registering, raising, bound methods of unreferenced objects); prefix-closed exhaustive enumeration incl. cache-filling queries; odd event names; application events with listeners reading the event payload",
          "every sequence up to length 4/5 over 20 operations plus random long histories"),
  "C13": ("unique-substring membership oracle over rendered help pages, width bound (incl. texts whose length sits at the terminal width), and byte comparison of 'help <path>' with '<path> --help' through Application.run",
          "generated configurations with every element named uniquely as a substring"),
- "C14": ("per-column alphabets attribute every rendered character to its column; oracles for width, rectangle, border offsets / column spans, per-column text preservation, table immutability",
+ "C14": ("per-column alphabets attribute every rendered character to its column; oracles for width, rectangle, border offsets / column spans, per-column text preservation, table immutability (second render, refused rows, styles added to the formatter later)",
          "seeded random tables over length-class profiles that drive the width distribution"),
- "C15": ("terminal emulator (deferred auto-wrap) replaying the recorded byte stream vs a stacked-sections screen model, one screen per output in two-output histories with flag words; plain degradation oracle",
+ "C15": ("terminal emulator (deferred auto-wrap) replaying the recorded byte stream vs a stacked-sections screen model, one screen per output in two-output histories with flag words; one-column non-ASCII lines; plain degradation oracle",
          "enumeration of all applicable operation sequences to depth 4/5 at two widths plus random histories"),
  "C16": ("virtual clock installed before clikit is imported; frames = writes between flushes, stamped with virtual time; state model + per-frame clauses (full bar after finish); emulator residue check, also for section bars on a terminal exactly as wide as the frame with a title above",
          "all operation sequences to length 4/5 on a configuration grid plus random sequences to length 60"),
- "C17": ("reused-vs-fresh application histories (incl. a shared parser object and a command lenient by overridden default); triple renders; creation-order experiments each in a pristine subprocess",
+ "C17": ("reused-vs-fresh application histories (incl. a shared parser object, a command lenient by overridden default, tokens with blanks inside, styles registered at run time, a command owning its question); triple renders; creation-order experiments each in a pristine subprocess",
          "all histories of length 2(-3) over an 18-line catalogue, with fresh and reused RawArgs objects"),
- "C18": ("scripted InputStream with read budget (logical termination), recording outputs, dialogue model; re-ask histories on one question object against new objects; PATH isolated so that the line-reading path is taken",
+ "C18": ("scripted InputStream with read budget (logical termination), recording outputs, dialogue model; re-ask histories on one question object against new objects; refilled input after an end-of-input abort; every fifth script read through the library's file-stream wrapper; PATH isolated so that the line-reading path is taken",
          "all answer scripts up to length 2/3 over a 15-entry alphabet x 132 configurations"),
- "C19": ("deterministic token-passing scheduler substituted for threading/time (every write, sleep, event op, lock acquire/release, start, join is a scheduling point; 'no thread can run' = deadlock verdict); depth-first schedule enumeration with a pre-emption bound, random schedules, trace replay on the emulator; independent real-thread stress engine",
+ "C19": ("deterministic token-passing scheduler substituted for threading/time (every write, sleep, event op, lock acquire/release, start, join is a scheduling point; 'no thread can run' = deadlock verdict); depth-first schedule enumeration with a pre-emption bound, random schedules, trace replay on the emulator (variants: plain, indented, empty end message, file-backed stream with a 5000-character message, stream failing on the error path); manual mode on virtual time incl. chosen formats on mixed I/Os; independent real-thread stress engine",
          "all schedules within the pre-emption bound for each program; verdicts on logical steps, wall-clock only as an inconclusive watchdog"),
- "C20": ("generated failing modules (unique files, odd paths, Latin-1 / wide scripts) and 19 unusual exception objects (solutions, groups, BaseException subclasses) rendered at every verbosity; snippet oracle from Python's own tokenize; ignore-filter oracle; highlighter over a corpus of real files",
+ "C20": ("generated failing modules (unique files, odd paths, Latin-1 / wide scripts) and 19 unusual exception objects (solutions, groups, BaseException subclasses) rendered at every verbosity, also exceptions that were never raised; snippet oracle from Python's own tokenize; ignore-filter oracle; highlighter over a corpus of real files",
          "seeded random modules, messages, recursion depths and I/O capabilities; corpus = repository, tests, 300 stdlib modules"),
 }
 
